@@ -110,13 +110,16 @@ def gen_case(rng, frontend=None):
                 steps.insert(rng.randrange(pos + 3, len(steps) + 1), {'uid': v, 'req': r, 'frame': f, 'after_add': True})
     # a gateway that learns its units at run time: the server is built (real constructor) around an empty context
     late = (not single) and all(0 <= u <= 247 for u, _ in units) and rng.random() < 0.25
+    # a fifth of the servers is configured through the library-wide defaults set at run time (no option passed to a constructor)
+    viad = (not late) and rng.random() < 0.2
     return dict(frontend=fe, framer=framer, single=single, units=units, ignore_missing=ignore, broadcast=bcast,
-                chunks=[s['frame'] for s in steps], steps=steps, late=late)
+                chunks=[s['frame'] for s in steps], steps=steps, late=late, via_defaults=viad)
 
 
 def run_real_stepwise(c):
     # late: the server is built by its real constructor around a context without units; the units are attached afterwards
-    s = frontends.Session(c['frontend'], c['framer'], c['single'], c['units'], c['ignore_missing'], c['broadcast'], late=bool(c.get('late')))
+    s = frontends.Session(c['frontend'], c['framer'], c['single'], c['units'], c['ignore_missing'], c['broadcast'], late=bool(c.get('late')),
+                          via_defaults=bool(c.get('via_defaults')))
     if s.late_note:
         run_real_stepwise.notes.add('%s: real constructor unavailable (%s)' % (c['frontend'], s.late_note))
     try:
@@ -148,6 +151,7 @@ def check(ctx, rep, cases):
         case = {k: c[k] for k in ('frontend', 'framer', 'single', 'units', 'ignore_missing', 'broadcast', 'chunks', 'steps')}
         case['kind'] = 'server'
         case['late'] = bool(c.get('late'))
+        case['via_defaults'] = bool(c.get('via_defaults'))
         if case['late']:
             rep.hist['late-attach:%s' % c['frontend']] += 1
         changed = any(d != before for d in per_step)
